@@ -79,8 +79,14 @@ def shrink(case):
 
 MANIFEST = {
     "text": "Model: every file-system mutation of the I/O loop appends the resulting directory to a trace; reopening is NewDiskQueue on any trace entry. "
-            "Theorems (Props/C08.v): metadata text round trip even with stale .tmp bytes; frame round trip; (being extended) recover_ok for every "
-            "crash point of every history. Tie: crash-point hook in the real queue, every distinct directory state restored and drained by a real "
-            "queue; recover_ok evaluated on the real drains, then compared with the model's directory and drain.",
-    "note": "Crash model: process death with completed syscalls durable. Post-recovery continuation (stale tail beyond the persisted write position) is a recorded finding, see known_findings.json. Trusted: Coq kernel+VM, OS file semantics.",
+            "Theorems (Props/C08.v): for every history of puts, gets and sync ticks within the first segment, every crash point (after each segment "
+            "write, fsync, metadata temp write, metadata rename) is reopened without panic and drains to a contiguous run E[sr..sw) of the enqueued "
+            "messages, intact and in order, with sr not beyond what was handed to the consumer (run invariant over file contents, metadata and the "
+            "whole crash trace; recovery lemma through the buffered reader); metadata round trip with stale .tmp bytes; frame round trip. "
+            "Tie: crash-point hook in the real queue, every distinct directory state restored and drained by a real queue; recover_ok evaluated on "
+            "the real drains, then compared with the model's directory and drain.",
+    "note": "partial: crash points in histories with segment roll-over, and the bound on sr at the very moment of the crash, are covered by the "
+            "recover_ok acceptor on real recoveries, not by the theorem. Crash model: process death with completed syscalls durable. What a "
+            "recovered queue does with new puts after an unsynced tail was left behind is outside this property (noted in DESIGN.md). "
+            "Trusted: Coq kernel+VM, OS file semantics.",
 }
